@@ -19,7 +19,10 @@ history stage of corr-c20 found that the code kept the state of the END of the a
 (D20-M1: `Write("ab\n")` cut after `--a`, then `Write("b\n")`, gave `--a--b\n`); repaired in /repo
 8883425 (`partialAfter`), mirrored in `Model.Indent.partialAfter`.  Now proved in full: `resume_spec`
 (the writer follows the specification of histories — bytes, counts, errors, line states — on every
-history, up to its first cut inside a prefix, after which nothing is asked).  The former refutation
+history, up to its first cut inside a prefix, after which nothing is asked) and
+`history_sink_is_rendering` (what that specification leaves with the underlying writer is the
+one-shot rendering of the concatenated accepted bytes, plus one prefix already written for the next
+line when the last cut fell exactly after it; `writer_sink_is_rendering`: so does the writer).  The former refutation
 `resume_spec_fails` and the restricted `resume_spec_partial` are gone (the latter is subsumed).
 `stateOfCut` turns the specification's state after a call into the writer's bit: `some a ↦ !a`
 (`partial` = "not at a line start"), and `none` (cut inside a prefix) `↦ false`, which is what
@@ -34,7 +37,7 @@ an empty prefix the rendering is the text itself (`render_empty_prefix`).
 namespace Goyang.Props.C20
 open Goyang.Model.Indent
 open Goyang.Spec.Indent (tagged render callerBytesIn atStartAfter nestedRender cutState history observed
-  uptoBrokenCut)
+  uptoBrokenCut accepted finalState pending)
 open Goyang.Lemmas.Indent (join_write render_append atStartAfter_append callerBytesIn_le
   callerBytesIn_min render_getLast? tagged_append countP_tagged write_none_eq write_some_eq stateOfCut)
 
@@ -337,6 +340,44 @@ theorem resume_spec_unbroken (pre : Bytes) (p : Bool) (cs : List (Bytes × Under
     writes pre p cs = observed (history pre (!p) cs) := by
   have := (resume_spec pre p cs).1
   rwa [h] at this
+
+/-- What the specification of histories leaves with the underlying writer IS the property's sentence:
+for every history without a cut inside a prefix (`finalState … = some st`), from any line state, the
+underlying writer ends up with the rendering of the concatenation of the accepted caller bytes
+(all of a successful Write, the counted bytes of a short one) as ONE text — followed by one prefix
+exactly when the accepted text ends at a line start but the last cut fell after the prefix of the
+next line (`pending`: that prefix is already out, the line has no byte yet).  For a fresh writer
+the rendering is `indent.String(prefix, accepted)`.  With `resume_spec`, this is what the writer does. -/
+theorem history_sink_is_rendering (pre : Bytes) (a : Bool) (cs : List (Bytes × Under)) (st : Bool)
+    (h : finalState pre a cs = some st) :
+    (history pre a cs).1 =
+      render pre a (accepted pre a cs) ++ pending pre (atStartAfter a (accepted pre a cs)) st ∧
+    (a = true → (history pre a cs).1 =
+      indent pre (accepted pre a cs) ++ pending pre (atStartAfter a (accepted pre a cs)) st) := by
+  have := Lemmas.Indent.history_sink pre a cs st h
+  refine ⟨this, ?_⟩
+  intro ha; subst ha
+  rw [oneshot_spec]; exact this
+
+/-- the writer itself, on a history without a cut inside a prefix: bytes accepted = one text -/
+theorem writer_sink_is_rendering (pre : Bytes) (cs : List (Bytes × Under)) (st : Bool)
+    (h : finalState pre true cs = some st) (hu : uptoBrokenCut pre true cs = cs) :
+    (writes pre false cs).1 =
+      indent pre (accepted pre true cs) ++ pending pre (atStartAfter true (accepted pre true cs)) st := by
+  have h1 := resume_spec_unbroken pre false cs (by simpa using hu)
+  have h2 := (history_sink_is_rendering pre true cs st h).2 rfl
+  simp only [Bool.not_false, observed] at h1
+  rw [h1]; exact h2
+
+/-- non-vacuity: a cut inside the caller bytes, resumed; a cut exactly after a prefix (pending) -/
+example : finalState [45, 45] true [([97, 98, 10], some 3), ([98, 10], none)] = some true ∧
+    accepted [45, 45] true [([97, 98, 10], some 3), ([98, 10], none)] = [97, 98, 10] ∧
+    (history [45, 45] true [([97, 98, 10], some 3), ([98, 10], none)]).1 = indent [45, 45] [97, 98, 10] := by decide
+example : finalState [45, 45] true [([97, 10, 98], some 6)] = some false ∧
+    accepted [45, 45] true [([97, 10, 98], some 6)] = [97, 10] ∧
+    pending [45, 45] (atStartAfter true [97, 10]) false = [45, 45] ∧
+    (history [45, 45] true [([97, 10, 98], some 6)]).1 = indent [45, 45] [97, 10] ++ [45, 45] := by decide
+example : finalState [45, 45] true [([97, 10, 98], some 5)] = none := by decide
 
 /-- the witness of the former defect: `Write("ab\n")` cut after `--a`, resumed with `Write("b\n")` -/
 example : writes [45, 45] false [([97, 98, 10], some 3), ([98, 10], none)] =
